@@ -8,9 +8,9 @@
 set -u
 id="$1"; shift
 checks="${*:-$id}"
-src=/tmp/seed_$id/out
-dst=/verif/seeded/$id
-W=/tmp/rv_seedcheck_$id
+# SEED_ROUND=2: second, independent round (different change per property): /tmp/seed2_<id> -> seeded/<id>b
+if [ "${SEED_ROUND:-1}" = "2" ]; then src=/tmp/seed2_$id/out; dst=/verif/seeded/${id}b; else src=/tmp/seed_$id/out; dst=/verif/seeded/$id; fi
+W=/tmp/rv_seedcheck_${SEED_ROUND:-1}_$id
 [ -f $src/patch.diff ] || { echo "no patch for $id"; exit 2; }
 mkdir -p $dst && cp $src/* $dst/ 2>/dev/null
 rm -rf $W; mkdir -p $W
@@ -36,10 +36,10 @@ fi
 cd /verif
 git -C /repo worktree remove --force $W/repo; rm -rf $W
 unset CARGO_TARGET_DIR
-det=$(RV_SELFTEST_DIR=/tmp/rv_selftest_$id tools/selftest.sh $dst/patch.diff $checks 2>&1 | grep SELFTEST)
+det=$(RV_SELFTEST_DIR=/tmp/rv_selftest_${SEED_ROUND:-1}_$id tools/selftest.sh $dst/patch.diff $checks 2>&1 | grep SELFTEST)
 echo "SEED $id: tests_pass_with_change=$tests_pass demo_passes_clean=$demo_ok_clean demo_fails_with_change=$demo_fails_mut"
 echo "$det"
-python3 - "$id" "$tests_pass" "$demo_ok_clean" "$demo_fails_mut" "$det" <<'PY'
+python3 - "$(basename $dst)" "$tests_pass" "$demo_ok_clean" "$demo_fails_mut" "$det" <<'PY'
 import json,sys,os
 id,tp,dc,dm,det=sys.argv[1:6]
 p=f'/verif/seeded/{id}/meta.json'
